@@ -243,15 +243,77 @@ def process_global_state():
             return any(mutable(e) for e in v.elts)
         return False
 
+    def constant_value(v):
+        if isinstance(v, ast.Constant):
+            return True
+        if isinstance(v, ast.Tuple):
+            return all(constant_value(e) for e in v.elts)
+        return False
+
+    PURE_CALLS = {"len", "sorted", "tuple", "frozenset", "enumerate", "zip", "any", "all", "min", "max", "sum", "iter", "reversed", "dict.fromkeys", "str.join", "repr", "str"}
+    READ_METHODS = {"get", "keys", "values", "items", "index", "count", "copy"}
+
+    def read_only_table(tree, name, value, imported_elsewhere):
+        """a module-level dict / list / set display of constants, bound once, that nothing in the package can write to: every
+        use of the name is a subscript READ, a membership test, an iteration, a read-only method or an argument of a pure
+        builtin — no store, no deletion, no mutating method, no alias (assignment, attribute, return, argument of other calls)"""
+        if name in imported_elsewhere:
+            return False
+        if isinstance(value, ast.Dict):
+            if not all(k is not None and constant_value(k) and constant_value(v) for k, v in zip(value.keys, value.values)):
+                return False
+        elif isinstance(value, (ast.List, ast.Set)):
+            if not all(constant_value(e) for e in value.elts):
+                return False
+        else:
+            return False
+        parents = {}
+        for p_ in ast.walk(tree):
+            for c in ast.iter_child_nodes(p_):
+                parents[id(c)] = p_
+        uses = [n for n in ast.walk(tree) if isinstance(n, ast.Name) and n.id == name]
+        stores = [n for n in uses if isinstance(n.ctx, (ast.Store, ast.Del))]
+        if len(stores) != 1 or any(isinstance(n, ast.Global) and name in n.names for n in ast.walk(tree)):
+            return False
+        for u in uses:
+            if u in stores:
+                continue
+            par = parents.get(id(u))
+            if isinstance(par, ast.Subscript) and par.value is u and isinstance(par.ctx, ast.Load):
+                continue
+            if isinstance(par, ast.Compare) and u in par.comparators and all(isinstance(o, (ast.In, ast.NotIn)) for o in par.ops):
+                continue
+            if isinstance(par, (ast.For, ast.comprehension)) and par.iter is u:
+                continue
+            if isinstance(par, ast.Attribute) and par.value is u and par.attr in READ_METHODS and isinstance(parents.get(id(par)), ast.Call) and parents[id(par)].func is par:
+                continue
+            if isinstance(par, ast.Call) and u in par.args and ast.unparse(par.func) in PURE_CALLS:
+                continue
+            return False
+        return True
+
+    import re as _re
+
+    imported = {}
+    sources = {}
+    for path in sorted(glob.glob(os.path.join(SRC, "*.py"))):
+        with open(path) as fh:
+            sources[path] = fh.read()
+    for path, text in sources.items():
+        for n in ast.walk(ast.parse(text)):
+            if isinstance(n, ast.ImportFrom):
+                for a in n.names:
+                    imported.setdefault(a.name, set()).add(os.path.basename(path))
     out = set()
     for path in sorted(glob.glob(os.path.join(SRC, "*.py"))):
         mod = os.path.basename(path)
         if mod == "_storage.py":
             continue
-        with open(path) as fh:
-            tree = ast.parse(fh.read())
+        tree = ast.parse(sources[path])
         for n in tree.body:
             if isinstance(n, ast.Assign) and len(n.targets) == 1 and isinstance(n.targets[0], ast.Name) and mutable(n.value):
+                if read_only_table(tree, n.targets[0].id, n.value, {k for k, v in imported.items() if v - {mod}} | ({n.targets[0].id} if _re.search(r"\b__all__\b", sources[path]) and n.targets[0].id in sources[path].split("__all__", 1)[1][:2000] else set())):
+                    continue        # a constant table: no way for one check to influence another through it
                 out.add(f"{mod}:{n.targets[0].id}:module")
             if isinstance(n, ast.AnnAssign) and isinstance(n.target, ast.Name) and n.value is not None and mutable(n.value):
                 out.add(f"{mod}:{n.target.id}:module")
